@@ -2,7 +2,7 @@
 import json
 
 from .. import txgen
-from ..gen import both, boundary_u256, lib_case, rand_bytes
+from ..gen import both, boundary_u256, lib_case, rand_bytes, VOCAB_UNITS
 from ..ref import jsonnum
 from ..ref import tx as reftx
 from ..run.core import V
@@ -188,7 +188,17 @@ def _doc(rng, tx, override=None):
 
 def _rand_token(rng):
     """A hostile spelling; its meaning is decided by the oracle from the text."""
-    k = rng.randrange(14)
+    k = rng.randrange(16)
+    if k == 14:
+        # a number followed by a unit or a keyword: not a number
+        v = rng.choice([1, 30, 21000, rng.randrange(10**6)])
+        body = rng.choice(["%d", "0x%x", "%d.0", "%d.5"]) % v
+        return json.dumps(body + rng.choice(["", " ", "_"]) + rng.choice(VOCAB_UNITS))
+    if k == 15:
+        # exactly 64 hex characters with one stray character at a word offset (fast paths split there)
+        h = list("%064x" % rng.getrandbits(256))
+        h[rng.choice([0, 1, 15, 16, 31, 32, 33, 47, 48, 63])] = rng.choice("+- _xXgG.")
+        return json.dumps("0x" + "".join(h))
     if k == 0:
         return rng.choice(NEG_NUMBERS)
     if k == 1:
